@@ -880,6 +880,9 @@ class FlexWindow(Strategy):
             # and maximum charging power.
             avg_power = v.battery.load(self.interval, max_power=power)["avg_power"]
             commands[cs_id] = avg_power
+            if self.LOAD_STRAT == "greedy":
+                # one after the other: next vehicle gets what is left
+                total_power -= avg_power
         return commands
 
     def load_surplus_to_batteries(self):
